@@ -38,6 +38,30 @@ def sysinfo(tag, names=None):
     return _SYS[key]
 
 
+def second_system(tag, names=None):
+    """a SECOND composite system of the same shape and names (a distinct instance, built once per process)"""
+    key = ("second", tag, tuple(names) if names else None)
+    if key not in _SYS:
+        mtag = {"Q1": "Q1", "Q3": "Q3"}.get(tag, tag)
+        _SYS[key] = A.make_system(mtag, list(names) if names else None)
+    return _SYS[key]
+
+
+def check_bound_system(k, what, obj, c, regen, value_of):
+    """the generated object belongs to the system it was requested on, and requesting the same name on a second system of
+    the same shape yields an equal object that belongs to THAT system (a memoised object would stay with the first)"""
+    k.true(what + ":composite_system-is-the-requested-one", obj.composite_system is c,
+           "the object generated for one composite system refers to another CompositeSystem instance")
+    ok, c2, obj2 = regen()
+    if not ok:
+        k.true(what + ":second-system:raises", False, "generating the same name on a second system of the same shape: %s" % A.fmt_exc(obj2))
+        return
+    k.true(what + ":second-system:composite_system-is-the-requested-one", obj2.composite_system is c2,
+           "the same name requested on a second CompositeSystem returns an object bound to %s" % (
+               "the first system" if obj2.composite_system is c else "some other system"))
+    k.close(what + ":second-system:value", value_of(obj2), value_of(obj))
+
+
 def coeffs_fast(M, Bmat):
     return Bmat.conj() @ np.asarray(M, dtype=np.complex128).reshape(-1)
 
